@@ -498,7 +498,7 @@ class ActionYesNo(Action):
         return None
 
     def _add_dest_prefix(self, prefix):
-        self.dest = prefix + "." + self.dest
+        self.dest = prefix.replace("-", "_") + "." + self.dest
         self.option_strings[0] = re.sub(
             "^--" + self._yes_prefix, "--" + self._yes_prefix + prefix + ".", self.option_strings[0]
         )
